@@ -202,6 +202,13 @@ func (w *World) Converge(ns, name string, pendingChanges int) ConvergeResult {
 		}
 		attrs["why"] = classify(why)
 		w.Mon.viol("C02", "C02.fixpoint-within-bound", attrs, nil, map[string]any{"bound": res.Bound, "rounds": res.Rounds, "live": live, "why": why, "pods": w.podSummary(ns, name)})
+		if strings.Contains(res.Resolution, "fail") {
+			// C07: after a canary failure the controller "subsequently replaces the canary pods by pods of
+			// the active template on the former canary nodes" (and removes them where the active template
+			// cannot run): no fixpoint within the bound
+			w.Mon.viol("C07", "C07.canary-pods-replaced", map[string]string{"resolution": res.Resolution, "why": classify(why)}, nil,
+				map[string]any{"bound": res.Bound, "rounds": res.Rounds, "live": live, "why": why, "pods": w.podSummary(ns, name)})
+		}
 		if releasedHold != "" {
 			// C08: "a rolling update resumes once its annotation is removed or set to false"
 			w.Mon.viol("C08", "C08.resumes-after-release", map[string]string{"released": strings.TrimSpace(releasedHold), "how": "annotation-removed", "why": classify(why)}, nil,
